@@ -26,6 +26,7 @@ import (
 	"github.com/ErdemOzgen/blackdagger/internal/persistence/jsondb"
 	"github.com/ErdemOzgen/blackdagger/internal/persistence/model"
 	"github.com/ErdemOzgen/blackdagger/verifh/core"
+	"github.com/ErdemOzgen/blackdagger/verifh/pgrp"
 )
 
 // ---- probe / printfile child processes ------------------------------------------------
@@ -314,13 +315,15 @@ func (h *bdHome) run(limit time.Duration, args ...string) (int, string, bool) {
 	if err := cmd.Start(); err != nil {
 		return -1, err.Error(), false
 	}
+	grp := pgrp.Open(cmd.Process.Pid)
+	defer grp.Close()
 	done := make(chan error, 1)
 	go func() { done <- cmd.Wait() }()
 	select {
 	case <-done:
 		return cmd.ProcessState.ExitCode(), out.String(), false
 	case <-time.After(limit):
-		_ = syscall.Kill(-cmd.Process.Pid, syscall.SIGKILL)
+		grp.Kill()
 		<-done
 		return -1, out.String(), true
 	}
